@@ -89,17 +89,17 @@ Fixpoint shape_value (fuel : nat) (s : schema) (frs : list (str * (ty * list sel
                                             negb must || mem_str k (map fst kvs)) cands
                        && forallb (fun kv =>
                             let mine := filter (fun c => let '(k, _, _, _) := c in str_eqb k (fst kv)) cands in
-                            match flat_map (fun c => let '(_, _, fd, _) := c in
-                                                     match fd with Some d => [sf_type d] | None => [] end) mine with
-                            | [] => false
-                            | ft :: _ =>
+                            (* which of the selected fields applies depends on the runtime
+                               type: the value must fit the declared type of one of them *)
+                            existsb (fun ft =>
                                 shape_value f s frs ft
                                   (flat_map (fun c => let '(_, must, fd, sub) := c in
                                                       match fd with
                                                       | Some d => [(Some (unwrap (sf_type d)), sub, must)]
                                                       | None => []
-                                                      end) mine) (snd kv)
-                            end) kvs
+                                                      end) mine) (snd kv))
+                              (flat_map (fun c => let '(_, _, fd, _) := c in
+                                                  match fd with Some d => [sf_type d] | None => [] end) mine)) kvs
                    | _ => false
                    end
           end
